@@ -23,6 +23,7 @@ CONSTANTS
   MaxDup = 0
   Engine = "engine"
   GateUsage = TRUE
+  UsageFaults = FALSE
 INIT Init
 NEXT Next
 VIEW View
